@@ -104,6 +104,10 @@ def order_shells(shells, kind):
     return [shells[i] for i in idx]
 
 
+class Infeasible(Exception):
+    """The generator cannot realise this case (e.g. the generated basis is linearly dependent)."""
+
+
 def build(case, target, seed=0):
     """Return (IOData, meta) for one case and target format."""
     from iodata import IOData
@@ -139,6 +143,8 @@ def build(case, target, seed=0):
     obasis = MolecularBasis(shells, conv, "L2")
     nb = obasis.nbasis
     s = gto.overlap(common.plain(obasis), conv, xyz)
+    if np.linalg.eigvalsh(s).min() < 1e-6:
+        raise Infeasible("linearly dependent basis")
     mokind = case["mo"]
     occupied_only = "occupied-only" in mokind
     nocc = max(1, min(3, nb - 1)) if nb > 1 else 1
